@@ -91,13 +91,13 @@ class Spec:
 
 
 def arg_assert_path(p):
-    """p ends in the `checks` argument assertion of write_bits: it took the false branch of
-    `value & mask(n_bits) == value` (the panic the feature exists to raise; its exactness is C19.G2)"""
+    """p ends in the `checks` argument assertion of write_bits: it is conditioned on a test of `value & <mask of n_bits>`
+    (the panic the feature exists to raise; that it is raised exactly for dirty values is decided by C19.G2)"""
     for (t, op, v) in p.constraints:
         ex = mir.expand(t, p)
-        if isinstance(ex, tuple) and ex and ex[0] == "binop" and ex[1] == "Eq" and op == "==" and v == 0:
+        if isinstance(ex, tuple) and ex and ex[0] == "binop" and ex[1] in ("Eq", "Ne"):
             s = str(ex)
-            if "wrapping_sub" in s and "'arg', 2, 'arg2'" in s and "'arg', 3, 'arg3'" in s and "BitAnd" in s:
+            if "'arg', 2, 'arg2'" in s and "'arg', 3, 'arg3'" in s and "BitAnd" in s:
                 return True
     return False
 
